@@ -7,7 +7,7 @@
    follows links) is FIXED in the code (041ee27: fs::symlink_metadata(target).is_ok()); the model's Move now asks
    LExists (lstat, no link following) and C18_no_overwrite has no exception.  The dangling-link state that used to be
    the K6 witness is kept below as a regression Example. *)
-From FV Require Import Base FsModel AtomicModel AtomicProofs AtomicProofs2 AtomicProofs3 AtomicProofs4.
+From FV Require Import Base FsModel AtomicModel AtomicProofs AtomicProofs2 AtomicProofs3 AtomicProofs4 AtomicProofs5.
 Open Scope N_scope.
 
 Theorem C18_injective : forall (d p p' : path), wf_abs p -> wf_abs p' -> mv_target d p = mv_target d p' -> p = p'.
@@ -45,6 +45,25 @@ Theorem C18_copy_then_delete : forall (sl : bool) (src tgt : path) (rn : bool) (
 Proof. exact c18_copy_then_delete. Qed.
 Print Assumptions C18_copy_then_delete.
 
+(* Distinctness survives the kernel's path resolution.  wf_clean p = "/" first and no "." / ".." component after it
+   (what `group` writes into a report); DIR is arbitrary (relative, with "." and ".." components, anything).  The
+   resolved target is the resolved DIR followed by the source path without its root, so any number of distinct
+   sources get pairwise distinct resolved targets. *)
+Theorem C18_resolved_shape : forall (d rest : path), clean rest ->
+  norm (mv_target d (root_c :: rest)) = norm d ++ rest.
+Proof. exact c18_resolved_shape. Qed.
+Print Assumptions C18_resolved_shape.
+
+Theorem C18_injective_resolved : forall (d p p' : path), wf_clean p -> wf_clean p' ->
+  norm (mv_target d p) = norm (mv_target d p') -> p = p'.
+Proof. exact c18_injective_resolved. Qed.
+Print Assumptions C18_injective_resolved.
+
+Theorem C18_targets_nodup : forall (d : path) (srcs : list path), Forall wf_clean srcs -> NoDup srcs ->
+  NoDup (map (fun p => norm (mv_target d p)) srcs).
+Proof. exact c18_targets_nodup. Qed.
+Print Assumptions C18_targets_nodup.
+
 (* ---------------------------------------------------------------- the former K6 state: a dangling link at the target *)
 Definition k6_src : path := [root_c; [119]; [102; 50]].                   (* /w/f2 *)
 Definition k6_dir : path := [root_c; [111]].                              (* /o *)
@@ -77,4 +96,12 @@ Example C18_wf_abs_inhabited : wf_abs k6_src /\ wf_abs [root_c] /\ mv_target k6_
 Proof.
   split; [exists [[119]; [102; 50]]; split; [reflexivity|]|split; [exists []; split; [reflexivity|intros []]|reflexivity]].
   cbn. intros [H|[H|[]]]; discriminate.
+Qed.
+
+(* non-vacuity of wf_clean, and a DIR spelled through "." and "..": /o/./x/.. resolves to /o *)
+Example C18_wf_clean_inhabited :
+  wf_clean k6_src /\ norm (mv_target (k6_dir ++ [dot_c; [120]; dotdot_c]) k6_src) = [root_c; [111]; [119]; [102; 50]].
+Proof.
+  split; [|vm_compute; reflexivity].
+  exists [[119]; [102; 50]]. split; [reflexivity|]. repeat constructor; discriminate.
 Qed.
